@@ -31,6 +31,9 @@ def b_len(ex, args, kwargs, line):
     (v,) = args
     if isinstance(v, SOpt):
         v = ex.unopt(v, line, "len-arg")
+    from . import grid as G
+    if isinstance(v, G.GRID_TYPES):
+        return wrap(G.length(ex, v))
     if isinstance(v, SStr):
         return wrap(z3.Length(v.t))
     if isinstance(v, PList):
@@ -253,6 +256,11 @@ def b_list(ex, args, kwargs, line):
 def b_tuple(ex, args, kwargs, line):
     if not args:
         return ()
+    from . import grid as G
+    if isinstance(args[0], G.SRowVal):
+        return args[0]
+    if isinstance(args[0], G.SRowRef):
+        return G.SRowVal(z3.Select(args[0].grid.rl, args[0].r), z3.Select(args[0].grid.at, args[0].r), args[0].grid.cls)
     return tuple(ex.iter_concrete(args[0]))
 
 
@@ -390,6 +398,11 @@ _B = {
 def call_method(ex, obj, name, args, kwargs, line):
     if isinstance(obj, SOpt):
         obj = ex.unopt(obj, line, "receiver")
+    from . import grid as G
+    if isinstance(obj, G.GRID_TYPES):
+        if name == "append":
+            return G.append(ex, obj, args[0], line)
+        raise Unsupported(f"grid method .{name}")
     if isinstance(obj, PObj):
         return ex.ctx.call_obj_method(ex, obj, name, args, kwargs, line)
     if isinstance(obj, SRef):
